@@ -152,6 +152,7 @@ def translate_cell(acc, rng, cfgname, hooked):
     for va in vas + [v ^ rng.choice((0x1000, 0x100000, 0x10000)) for v in vas[:3]]:
         pass
     pre_nomem = {k: v for k, v in pre.items()}
+    held = None          # (descriptor object, what it said when it was returned): a result stays what it was after later translations
     for va in vas + [v ^ rng.choice((0x1000, 0x100000, 0x10000)) for v in vas[:3]]:
         ispriv, iswrite = bool(rng.getrandbits(1)), bool(rng.getrandbits(1))
         target.apply_state(cpu, {'dfsr': pre['dfsr'], 'dfar': pre['dfar']})
@@ -177,6 +178,11 @@ def translate_cell(acc, rng, cfgname, hooked):
         try:
             d = cpu.translate_address(va, ispriv, iswrite, 4, True)
             got = ('ok', d.paddress.physicaladdress, d.memattrs.type.name.lower().replace('_', '-') if d.memattrs.type is not None else None)
+            if held is not None and held[1] != (held[0].paddress.physicaladdress, held[0].memattrs.type):
+                acc.violation('C15:translate:earlier-result-overwritten', {'cfgname': cfgname, 'hooked': hooked, 'state': jsonable_state(st_), 'va': va, 'ispriv': ispriv, 'iswrite': iswrite,
+                                                                         'held_va': held[2], 'kind': 'held'},
+                              {'earlier_result_was': [held[1][0], str(held[1][1])], 'now_reads': [held[0].paddress.physicaladdress, str(held[0].memattrs.type)]})
+            held = (d, (d.paddress.physicaladdress, d.memattrs.type), va)
         except DataAbortException as e:
             got = ('abort', e.abort_type.name.lower(), None)
         except target.HangDetected as e:
@@ -224,7 +230,7 @@ def shard_translate(seed, count):
 
 
 # ------------------------------------------------------------------------------------------------ long descriptors (direct)
-def ld_cell(acc, rng, hooked):
+def ld_cell(acc, rng, hooked, prop='C15', unpriv_only=False):
     cfgov = CFGS['v7-lpae']
     cfg = diff.full_cfg(cfgov)
     t0sz, t1sz = rng.choice((0, 0, 1, 2, 3, 7)), rng.choice((0, 0, 1, 2, 5))
@@ -286,6 +292,8 @@ def ld_cell(acc, rng, hooked):
     pre = target.snapshot(cpu)
     for va in vas:
         ispriv, iswrite = bool(rng.getrandbits(1)), bool(rng.getrandbits(1))
+        if unpriv_only:
+            ispriv = False
         target.apply_state(cpu, {'dfsr': pre['dfsr'], 'dfar': pre['dfar']})
         M = Machine(pre, [(0, 0x100), TABLES], cfg, hooked)
         try:
@@ -314,7 +322,7 @@ def ld_cell(acc, rng, hooked):
         if ref[0] == 'skip':
             acc.excluded += 1
             if got[0] in ('host-error', 'hang'):
-                acc.violation('C15:ld:' + got[0], {'ld': True, 'hooked': hooked, 'state': jsonable_state(st_), 'va': va, 'ispriv': ispriv, 'iswrite': iswrite}, {'got': list(got)})
+                acc.violation(prop + ':ld:' + got[0], {'ld': True, 'hooked': hooked, 'state': jsonable_state(st_), 'va': va, 'ispriv': ispriv, 'iswrite': iswrite}, {'got': list(got)})
             continue
         bad = None
         if ref[0] == 'notimpl':
@@ -327,7 +335,7 @@ def ld_cell(acc, rng, hooked):
             if dd:
                 bad = {'state(expected,observed)': e1.fmt_diff(dd), 'reference': list(ref)}
         if bad:
-            acc.violation('C15:ld:%s-vs-%s' % (':'.join(str(x) for x in ref[:3] if x is not None and not isinstance(x, int) or ref[0] == 'abort' and isinstance(x, int)), got[0] + (':' + str(got[1]) if got[0] == 'abort' else '')),
+            acc.violation(prop + ':ld:%s-vs-%s' % (':'.join(str(x) for x in ref[:3] if x is not None and not isinstance(x, int) or ref[0] == 'abort' and isinstance(x, int)), got[0] + (':' + str(got[1]) if got[0] == 'abort' else '')),
                           {'ld': True, 'hooked': hooked, 'state': jsonable_state(st_), 'va': va, 'ispriv': ispriv, 'iswrite': iswrite}, bad)
 
 
@@ -431,6 +439,14 @@ def replay(case, bucket=None):
         st_ = {k: (bytes.fromhex(v) if k.startswith('mem') else v) for k, v in case['state'].items()}
         target.apply_state(cpu, st_)
         pre = target.snapshot(cpu)
+        if case.get('kind') == 'held':
+            try:
+                d1 = cpu.translate_address(case['held_va'], True, False, 4, True)
+                was = (d1.paddress.physicaladdress, d1.memattrs.type)
+                cpu.translate_address(case['va'], case['ispriv'], case['iswrite'], 4, True)
+            except Exception:
+                return []
+            return ['earlier result overwritten'] if was != (d1.paddress.physicaladdress, d1.memattrs.type) else []
         M = Machine(pre, [(0, 0x100), TABLES], cfg, hooked)
         try:
             ref = ('ok',) + tuple(mmu.translate_v(M, case['va'], case['ispriv'], case['iswrite'], 4, True, want_attrs=True))
